@@ -1228,7 +1228,7 @@ func (c Code) Compile() {
 		}
 		var f Object
 		switch strings.ToLower(string(sym)) {
-		case "defun", "defmacro", "defvar", "defparameter", "defconstant":
+		case "defpackage", "defun", "defmacro", "defvar", "defparameter", "defconstant":
 			f = ListToFunc(scope, list, 0)
 			c[i] = f
 		}
